@@ -3,7 +3,8 @@ import ast
 
 from ..repo import AnalysisError, dotted
 from ..events import all_events, flat_events
-from ..interp import CFG_ATTRS, CFG_CLASSES
+from ..interp import CFG_CLASSES
+from ..names import classify_server_value
 from ..terms import show, is_const
 
 ASYNC_NAMES = {"callLater", "deferToThread", "callInThread", "callFromThread",
@@ -50,12 +51,6 @@ def r_atomic(ctx):
            detail="; ".join("%s at line %d" % (w, n.lineno) for n, w in bad[:5]))
 
 
-def _canonical(cls, attr):
-    if attr == "_db":
-        return ("db", "chan")
-    return ("cfg", CFG_ATTRS[attr])
-
-
 def r_plumb(ctx):
     """F-handles: the two database handles and the configuration values reach
     Server -> AppNamespace -> Mailbox slot by slot under the same name; the
@@ -66,6 +61,7 @@ def r_plumb(ctx):
              "attribute of that role (makeService: the create_or_upgrade_* results "
              "and the matching config keys)")
     model = ctx.model
+    names = model.names
     n = 0
     server_seen = False
     entries = ["tap:makeService", "timer", "ws:onMessage"]
@@ -76,7 +72,8 @@ def r_plumb(ctx):
                 if obj[0] != "obj" or obj[1] not in CFG_CLASSES:
                     continue
                 attr = e["attr"]
-                if attr != "_db" and attr not in CFG_ATTRS:
+                want = names.role(obj[1], attr)
+                if want is None:
                     continue
                 if not e["func"].endswith(".__init__"):
                     ctx.ob("R-plumb", "%s: self.%s reassigned" % (e["func"], attr),
@@ -84,12 +81,16 @@ def r_plumb(ctx):
                     continue
                 n += 1
                 v = e["value"]
-                if obj[1] == "Server":
+                if obj[1] == "Server" and en == "tap:makeService":
                     server_seen = True
-                    ok, why = _server_slot(attr, v)
+                    got = classify_server_value(v, model.interp)
+                    # no log file configured: the slot holds None on that path
+                    ok = got == want or (want == ("cfg", "log_file") and v == ("const", None))
+                    why = "Server.%s is %s, not the %s value makeService provides" % (
+                        attr, show(v)[:60], want[1])
                 else:
-                    ok = (v == _canonical(obj[1], attr))
-                    why = "value %s, expected %s" % (show(v), show(_canonical(obj[1], attr)))
+                    ok = (v == want)
+                    why = "value %s, expected %s" % (show(v), show(want))
                 ctx.ob("R-plumb", "%s.%s" % (obj[1], attr), ok, e, "" if ok else why)
     ctx.require("R-plumb", n, 8, "handle/config slot assignments in constructors")
     if not server_seen:
@@ -112,28 +113,6 @@ def r_plumb(ctx):
     ok = isinstance(proto, ast.Name) and proto.id == "WebSocketServer"
     ctx.ob("R-plumb", "WebSocketServerFactory.protocol", ok,
            ent[0].path if ent else "", "" if ok else "protocol is not WebSocketServer")
-
-
-def _server_slot(attr, v):
-    def cfgkey(t, key):
-        return t[0] == "sub" and is_const(t[2]) and t[2][1] == key
-
-    if attr == "_db":
-        ok = v[0] == "call" and v[1] == "create_or_upgrade_channel_db"
-        return ok, "Server._db is %s, expected create_or_upgrade_channel_db(...)" % show(v)
-    if attr == "_usage_db":
-        ok = v[0] == "call" and v[1] == "create_or_upgrade_usage_db"
-        return ok, "Server._usage_db is %s, expected create_or_upgrade_usage_db(...)" % show(v)
-    if attr == "_blur_usage":
-        ok = cfgkey(v, "blur-usage")
-        return ok, "Server._blur_usage is %s, expected config['blur-usage']" % show(v)
-    if attr == "_allow_list":
-        ok = cfgkey(v, "allow-list")
-        return ok, "Server._allow_list is %s, expected config['allow-list']" % show(v)
-    if attr == "_log_requests":
-        ok = v[0] == "isnone" and cfgkey(v[1], "blur-usage")
-        return ok, "Server._log_requests is %s, expected (blur_usage is None)" % show(v)
-    return True, ""
 
 
 PRAGMA_OK = {("foreign_keys", "ON"), ("foreign_keys", "1"), ("foreign_keys", "TRUE"),
@@ -191,3 +170,190 @@ def r_conn(ctx, rule="R-conn"):
                        "%s:%d" % (mod.path, node.lineno),
                        "transaction mode of a connection is changed")
         ctx.ob(rule, "module %s: no transaction-mode tampering" % mod.name, True, mod.path)
+
+
+def r_startup(ctx, rule, tables, what, usage=False):
+    """No start-up code touches the rows a property is about.
+
+    The runtime rules enumerate the writers of a table over the connection and
+    timer entry points; the database entry points (which run before anybody
+    connects) may create the schema and the version row and run the packaged
+    upgrade scripts, nothing else.  Positive control: the version-row INSERT of
+    the creation path must be seen by the same scan."""
+    model = ctx.model
+    ctx.rule(rule, "the database entry points (start-up) execute no INSERT/UPDATE/DELETE "
+             "on %s outside the packaged schema / upgrade scripts" % "/".join(
+                 "`%s`" % t for t in tables))
+    seen_control = 0
+    bad = {}
+    for en in model.DB_ENTRIES:
+        is_usage = "usage" in en
+        for p in model.paths(en):
+            for e, _ in all_events(p, ("sql",)):
+                st = e["stmt"]
+                if st.kind not in ("insert", "update", "delete"):
+                    continue
+                if st.table == "version":
+                    seen_control += 1
+                    continue
+                generic = not ("usage" in en or "channel" in en)
+                if st.table in tables and (generic or is_usage == usage):
+                    bad.setdefault((e["func"], st.normalized()), e)
+    for (func, norm), e in sorted(bad.items()):
+        ctx.ob(rule, "%s: %s [at start-up]" % (func, norm), False, e,
+               "%s at start-up, before any client is connected: %s" % (norm, what))
+    ctx.ob(rule, "start-up code leaves %s alone" % "/".join(tables), not bad, "",
+           "" if not bad else "%d statement(s)" % len(bad))
+    if seen_control < 1:
+        raise AnalysisError("%s: the scan of the database entry points did not even see "
+                            "the version-row INSERT (anchor vanished?)" % rule)
+
+
+def r_durable(ctx, rule, dbs, why):
+    """An open transaction is process state: what a command wrote but did not
+    commit is seen by the server that keeps running (same connection) and is
+    lost by a restart.  Necessary for every property that quantifies over
+    restarts: each entry point hands control back with the databases clean
+    (the obligation set of R09.exit, restricted to `dbs`)."""
+    from ..events import handler_of
+    from ..report import render_path
+    model = ctx.model
+    ctx.rule(rule, "every entry point returns to the reactor with no uncommitted statement "
+             "on %s (what is acknowledged but uncommitted does not survive a restart)"
+             % "/".join(dbs))
+    n = 0
+    seen = set()
+    for en in model.runtime_entries():
+        for p in model.paths(en):
+            n += 1
+            dirty = sorted(d for d in p.dirty if d in dbs)
+            if not dirty:
+                continue
+            last = p.events[-1] if p.events else None
+            key = (en, handler_of(p), tuple(dirty), last["site"][:2] if last else None)
+            if key in seen:
+                continue
+            seen.add(key)
+            ctx.ob(rule, "%s exits via %s" % (handler_of(p) or en, p.outcome.kind),
+                   False, last or "", "the entry point returns with uncommitted changes on "
+                   "%s: %s" % (dirty, why), render_path(p.events))
+    ctx.ob(rule, "all entry-point exits are clean", not seen, "", "%d paths" % n)
+    ctx.require(rule, n, 50, "entry-point paths")
+
+
+def listener_index_obligations(model, index_attr):
+    """A container S = (class, attr) that is meant to hold `ids of the
+    mailboxes that have at least one listener`.  Returns a list of
+    (clause, label, ok, event, detail, path):
+      (i)   every listener registration adds the mailbox's own id to S on the
+            same path, and S is added to nowhere else;
+      (ii)  an id leaves S only when the listener table of that mailbox is
+            known to be empty (tested on the path, or cleared before);
+      (iii) wherever a listener is removed, S is updated too or the table is
+            known to be still non-empty.
+    (i)+(ii): S covers every subscribed mailbox.  (i)-(iii): S is a function
+    of the listener tables, hence empty whenever nobody is subscribed."""
+    from ..events import is_listeners_reg, is_own_mailbox_id
+    from ..terms import mentions
+    lattr = model.names.listeners[1]
+
+    def on_index(x):
+        return x["reg"][0] == "reg" and x["reg"][1][0] == "obj" and \
+            (x["reg"][1][1], x["reg"][2]) == index_attr
+
+    def listeners_cond(c):
+        return mentions(c[0], lambda q: q[0] == "reg" and q[2] == lattr)
+
+    def empty_pol(c):
+        # the condition holds when the listener table is EMPTY
+        t, b, _s = c
+        pos = True
+        while t[0] in ("not", "truth"):
+            if t[0] == "not":
+                pos = not pos
+            t = t[1]
+        if t[0] == "reg" and t[2] == lattr:
+            return b != pos
+        if t[0] == "cmp" and t[2][0] == "call" and t[2][1] == "len" and \
+                t[3] == ("const", 0) and t[1] in ("==", ">", "!="):
+            truth_when_empty = {"==": True, ">": False, "!=": False}[t[1]]
+            return b == (truth_when_empty if pos else not truth_when_empty)
+        return None
+
+    out = []
+    for en in model.runtime_entries():
+        for p in model.paths(en):
+            evs = [x for x, _ in all_events(p, ("reg_set", "reg_del", "setattr"))]
+            for i, x in enumerate(evs):
+                if x["k"] == "reg_set" and is_listeners_reg(x["reg"]):
+                    ok = any(y["k"] == "reg_set" and on_index(y) and
+                             y.get("value_src") is not None and
+                             is_own_mailbox_id(y["value_src"]) for y in evs)
+                    out.append(("i", "%s: a new listener puts its mailbox into %s.%s" % (
+                        (x["func"],) + index_attr), ok, x, "" if ok else
+                        "a subscribed mailbox is missing from the set", p))
+                if x["k"] == "reg_set" and on_index(x):
+                    ok = any(y["k"] == "reg_set" and is_listeners_reg(y["reg"]) for y in evs)
+                    out.append(("i", "%s: %s.%s grows only with a listener registration" % (
+                        (x["func"],) + index_attr), ok, x, "" if ok else
+                        "an id enters the set without a listener", p))
+                if x["k"] == "reg_del" and on_index(x):
+                    empty = False
+                    for c in x["pc"]:
+                        if listeners_cond(c) and empty_pol(c) is True:
+                            empty = True
+                    for y in evs[:i]:
+                        if y["k"] == "setattr" and y["attr"] == lattr and \
+                                y["value"][0] in ("dictlit", "coll", "kwdict") and \
+                                not (y["value"][1] if y["value"][0] != "coll" else ()):
+                            empty = True
+                        if y["k"] == "reg_del" and is_listeners_reg(y["reg"]) and \
+                                y.get("how") == "clear":
+                            empty = True
+                    out.append(("ii", "%s: an id leaves %s.%s only when its mailbox has no "
+                                "listener left" % ((x["func"],) + index_attr), empty, x,
+                                "" if empty else "the id is removed although other listeners "
+                                "of the mailbox may remain", p))
+                removal = (x["k"] == "reg_del" and is_listeners_reg(x["reg"])) or \
+                    (x["k"] == "setattr" and x["attr"] == lattr and
+                     x["obj"][0] == "obj" and not x["func"].endswith("__init__"))
+                if removal:
+                    upd = any(y["k"] == "reg_del" and on_index(y) for y in evs[i:])
+                    still = any(listeners_cond(c) and empty_pol(c) is False
+                                for c in p.pc[len(x["pc"]):])
+                    ok = upd or still
+                    out.append(("iii", "%s: removing a listener keeps %s.%s in step" % (
+                        (x["func"],) + index_attr), ok, x, "" if ok else
+                        "the listener table may have become empty while the id stays in "
+                        "the set", p))
+    return out
+
+
+def r_lookup(ctx, rule, tables):
+    """A single-row lookup (`SELECT ... .fetchone()`) that the code then treats
+    as *the* row of an object must be keyed by a conjunction of equalities: with
+    an OR (or no WHERE) some other row can be returned, and what follows (the
+    `for_nameplate` of a usage record, an existence test, a flag) is about the
+    wrong object."""
+    from ..events import each_event, construct_of
+    model = ctx.model
+    ctx.rule(rule, "single-row lookups on %s are keyed by a conjunction of equalities"
+             % "/".join("`%s`" % t for t in tables))
+    n = 0
+    seen = set()
+    for p, e, loops in each_event(model, model.runtime_entries(), ("sql",)):
+        st = e["stmt"]
+        if st.kind != "select" or e["db"] != "chan" or st.table not in tables:
+            continue
+        if e["site"] not in getattr(model.interp, "fetchone_sites", ()):
+            continue
+        if e["site"] in seen:
+            continue
+        seen.add(e["site"])
+        n += 1
+        eq = e["binds"]["where_eq"]
+        ok = eq is not None and len(eq) >= 1 and not st.extra.get("joins")
+        ctx.ob(rule, construct_of(e) + " [lookup]", ok, e, "" if ok else
+               "the row fetched by %s is not determined by its key: another row can be "
+               "returned" % st.normalized())
+    ctx.require(rule, n, 1, "single-row lookups")
